@@ -13,10 +13,11 @@ import Fsel.Model.Lexer
 
 namespace Fsel
 
+/-- Parser failure.  There is deliberately no `panic` and no `hang` constructor: after the `fix:`
+    commits for D20–D25 every failure of the Rust parser is an `Err(String)`, and the model's types
+    carry that fact (a parser result is a value of `Except PErr _`, nothing else). -/
 inductive PErr where
   | msg (m : String)
-  | panic (site : String)
-  | hang (site : String)
   | unsupported (why : String)
   deriving Repr, BEq, DecidableEq
 
@@ -31,7 +32,20 @@ def Rest.lift {ts us : List Lexem} (r : Rest ts) (h : ts.length ≤ us.length) :
 
 def Rest.refl (ts : List Lexem) : Rest ts := ⟨ts, Nat.le_refl _⟩
 
-abbrev PR (α : Type) (ts : List Lexem) := Except PErr α × Rest ts
+/-- Result of a sub-parser started at `ts`: outcome, remaining tokens, and the facts the loops need:
+    the remaining list is no longer than the input, and (for `strict = true`) strictly shorter whenever
+    the input was non-empty — on success *and* on failure (this is what the D25 fix established). -/
+structure PR (strict : Bool) (α : Type) (ts : List Lexem) where
+  res : Except PErr α
+  rest : List Lexem
+  le : rest.length ≤ ts.length
+  progress : strict = true → ts ≠ [] → rest.length < ts.length
+
+def PR.lift {b : Bool} {α : Type} {ts us : List Lexem} (r : PR b α ts) (h : ts.length < us.length) : PR true α us :=
+  ⟨r.res, r.rest, by have := r.le; omega, fun _ _ => by have := r.le; omega⟩
+
+def PR.weak {α : Type} {ts us : List Lexem} (r : PR false α ts) (h : ts.length ≤ us.length) : PR false α us :=
+  ⟨r.res, r.rest, by have := r.le; omega, fun h => by simp at h⟩
 
 def Op.ofStr? (s : Str) : Option Op := lookup (lowerStr s) opTable
 def ArithOp.ofStr? (s : Str) : Option ArithOp := lookup (lowerStr s) arithTable
@@ -93,221 +107,242 @@ def fnHeader (fn : Function) : (ts : List Lexem) → FnHdr ts
 
 mutual
 
-def parseExpr (bs : Bool) (ts : List Lexem) : PR Expr ts :=
+def parseExpr (bs : Bool) (ts : List Lexem) : PR true Expr ts :=
   match parseAnd bs ts with
-  | (.error e, r) => (.error e, r)
-  | (.ok left, ⟨r, hr⟩) =>
+  | ⟨.error e, r, hr, hp⟩ => ⟨.error e, r, hr, hp⟩
+  | ⟨.ok left, r, hr, hp⟩ =>
     match exprLoop bs none r with
-    | (.error e, r2) => (.error e, r2.lift hr)
-    | (.ok none, r2) => (.ok left, r2.lift hr)
-    | (.ok (some right), r2) => (.ok (.logic left .Or right), r2.lift hr)
+    | ⟨.error e, r2, h2, _⟩ => ⟨.error e, r2, by omega, fun a b => by have := hp a b; omega⟩
+    | ⟨.ok none, r2, h2, _⟩ => ⟨.ok left, r2, by omega, fun a b => by have := hp a b; omega⟩
+    | ⟨.ok (some right), r2, h2, _⟩ => ⟨.ok (.logic left .Or right), r2, by omega, fun a b => by have := hp a b; omega⟩
 termination_by 16 * ts.length + 12
 
-def exprLoop (bs : Bool) (right : Option Expr) (ts : List Lexem) : PR (Option Expr) ts :=
+def exprLoop (bs : Bool) (right : Option Expr) (ts : List Lexem) : PR false (Option Expr) ts :=
   match ts with
   | .or_ :: r =>
     match parseAnd bs r with
-    | (.error e, r2) => (.error e, r2.lift (by simp))
-    | (.ok e, ⟨r2, h2⟩) =>
+    | ⟨.error e, r2, h2, _⟩ => ⟨.error e, r2, by lenomega, fun h => by simp at h⟩
+    | ⟨.ok e, r2, h2, _⟩ =>
       let right' := match right with
         | some rr => some (Expr.logic rr .Or e)
         | none => some e
-      let (res, r3) := exprLoop bs right' r2
-      (res, r3.lift (by simp; omega))
-  | ts => (.ok right, Rest.refl ts)
+      match exprLoop bs right' r2 with
+      | ⟨res, r3, h3, _⟩ => ⟨res, r3, by lenomega, fun h => by simp at h⟩
+  | ts => ⟨.ok right, ts, Nat.le_refl _, fun h => by simp at h⟩
 termination_by 16 * ts.length + 11
 
-def parseAnd (bs : Bool) (ts : List Lexem) : PR Expr ts :=
+def parseAnd (bs : Bool) (ts : List Lexem) : PR true Expr ts :=
   match parseCond bs ts with
-  | (.error e, r) => (.error e, r)
-  | (.ok left, ⟨r, hr⟩) =>
+  | ⟨.error e, r, hr, hp⟩ => ⟨.error e, r, hr, hp⟩
+  | ⟨.ok left, r, hr, hp⟩ =>
     match andLoop bs none r with
-    | (.error e, r2) => (.error e, r2.lift hr)
-    | (.ok none, r2) => (.ok left, r2.lift hr)
-    | (.ok (some right), r2) => (.ok (.logic left .And right), r2.lift hr)
+    | ⟨.error e, r2, h2, _⟩ => ⟨.error e, r2, by omega, fun a b => by have := hp a b; omega⟩
+    | ⟨.ok none, r2, h2, _⟩ => ⟨.ok left, r2, by omega, fun a b => by have := hp a b; omega⟩
+    | ⟨.ok (some right), r2, h2, _⟩ => ⟨.ok (.logic left .And right), r2, by omega, fun a b => by have := hp a b; omega⟩
 termination_by 16 * ts.length + 10
 
-def andLoop (bs : Bool) (right : Option Expr) (ts : List Lexem) : PR (Option Expr) ts :=
+def andLoop (bs : Bool) (right : Option Expr) (ts : List Lexem) : PR false (Option Expr) ts :=
   match ts with
   | .and_ :: r =>
     match parseCond bs r with
-    | (.error e, r2) => (.error e, r2.lift (by simp))
-    | (.ok e, ⟨r2, h2⟩) =>
+    | ⟨.error e, r2, h2, _⟩ => ⟨.error e, r2, by lenomega, fun h => by simp at h⟩
+    | ⟨.ok e, r2, h2, _⟩ =>
       let right' := match right with
         | some rr => some (Expr.logic rr .And e)
         | none => some e
-      let (res, r3) := andLoop bs right' r2
-      (res, r3.lift (by simp; omega))
-  | ts => (.ok right, Rest.refl ts)
+      match andLoop bs right' r2 with
+      | ⟨res, r3, h3, _⟩ => ⟨res, r3, by lenomega, fun h => by simp at h⟩
+  | ts => ⟨.ok right, ts, Nat.le_refl _, fun h => by simp at h⟩
 termination_by 16 * ts.length + 9
 
-def parseCond (bs : Bool) (ts : List Lexem) : PR Expr ts :=
-  match hn : skipNots ts with
+def parseCond (bs : Bool) (ts : List Lexem) : PR true Expr ts :=
+  match skipNots ts with
   | (negate, ⟨t1, h1⟩) =>
   match parseAddSub bs t1 with
-  | (.error e, r) => (.error e, r.lift h1)
-  | (.ok left, ⟨t2, h2⟩) =>
-    -- optional infix NOT
+  | ⟨.error e, r, hr, hp⟩ =>
+    ⟨.error e, r, by omega, fun a b => by
+      by_cases h : t1 = []
+      · subst h; simp at hr; cases ts with
+        | nil => exact absurd rfl b
+        | cons x xs => subst hr; simp
+      · have := hp a h; omega⟩
+  | ⟨.ok left, t2, h2, hp2⟩ =>
+    -- a successful operand parse consumed at least one token of `t1`
+    have hlt : t2.length < ts.length ∨ ts = [] := by
+      by_cases h : t1 = []
+      · subst h
+        cases ts with
+        | nil => exact Or.inr rfl
+        | cons x xs => left; simp at h2; subst h2; simp
+      · left; have := hp2 rfl h; omega
     match infixNot t2 with
     | (not, ⟨t3, h3⟩) =>
-    let fin (e : Expr) (r : List Lexem) (hr : r.length ≤ t3.length) : PR Expr ts :=
+    let fin (e : Expr) (r : List Lexem) (hr : r.length ≤ t3.length) : PR true Expr ts :=
       let e' := boolShorthand bs e
-      (.ok (if negate then e'.negate else e'), ⟨r, by lenomega⟩)
+      ⟨.ok (if negate then e'.negate else e'), r, by omega, fun _ b => by
+        cases hlt with
+        | inl h => omega
+        | inr h => exact absurd h b⟩
+    let bad (e : PErr) (r : List Lexem) (hr : r.length ≤ t3.length) : PR true Expr ts :=
+      ⟨.error e, r, by omega, fun _ b => by
+        cases hlt with
+        | inl h => omega
+        | inr h => exact absurd h b⟩
     match ht3 : t3 with
     | .op s :: t4 =>
       have h4 : t4.length + 1 = t3.length := by lenomega
       if s == ofS "between" then
         match parseAddSub bs t4 with
-        | (.error e, r) => (.error e, r.lift (by lenomega))
-        | (.ok lb, ⟨t5, h5⟩) =>
+        | ⟨.error e, r, hr, _⟩ => bad e r (by lenomega)
+        | ⟨.ok lb, t5, h5, _⟩ =>
           match ht5 : t5 with
           | .and_ :: t6 =>
             have h6 : t6.length + 1 = t5.length := by lenomega
             match parseAddSub bs t6 with
-            | (.error e, r) => (.error e, r.lift (by lenomega))
-            | (.ok rb, ⟨t7, h7⟩) =>
+            | ⟨.error e, r, hr, _⟩ => bad e r (by lenomega)
+            | ⟨.ok rb, t7, h7, _⟩ =>
               let le := Expr.cmp left (if not then .Lte else .Gte) lb
               let re := Expr.cmp left (if not then .Gte else .Lte) rb
               fin (.logic le (if not then .Or else .And) re) t7 (by lenomega)
-          | [] => (.error (.msg "Error parsing BETWEEN operator"), ⟨[], by simp⟩)
+          | [] => bad (.msg "Error parsing BETWEEN operator") [] (by simp)
           | _ :: t6 =>
             have h6 : t6.length + 1 = t5.length := by lenomega
-            (.error (.msg "Error parsing BETWEEN operator"), ⟨t6, by lenomega⟩)
+            bad (.msg "Error parsing BETWEEN operator") t6 (by lenomega)
       else
         match parseAddSub bs t4 with
-        | (.error e, r) => (.error e, r.lift (by lenomega))
-        | (.ok right, ⟨t5, h5⟩) =>
+        | ⟨.error e, r, hr, _⟩ => bad e r (by lenomega)
+        | ⟨.ok right, t5, h5, _⟩ =>
           match Op.fromWithNot s not with
-          | none => (.error (.panic "parser.rs: Op::from_with_not(..).unwrap()"), ⟨t5, by lenomega⟩)
+          | none => bad (.msg "Unknown operator") t5 (by lenomega)
           | some op => fin (.cmp left op right) t5 (by lenomega)
     | _ => fin left t3 (Nat.le_refl _)
 termination_by 16 * ts.length + 8
 
-def parseAddSub (bs : Bool) (ts : List Lexem) : PR Expr ts :=
+def parseAddSub (bs : Bool) (ts : List Lexem) : PR true Expr ts :=
   match parseMulDiv bs ts with
-  | (.error e, r) => (.error e, r)
-  | (.ok left, ⟨r, hr⟩) =>
-    let (res, r2) := addLoop bs left r
-    (res, r2.lift hr)
+  | ⟨.error e, r, hr, hp⟩ => ⟨.error e, r, hr, hp⟩
+  | ⟨.ok left, r, hr, hp⟩ =>
+    match addLoop bs left r with
+    | ⟨res, r2, h2, _⟩ => ⟨res, r2, by omega, fun a b => by have := hp a b; omega⟩
 termination_by 16 * ts.length + 7
 
-def addLoop (bs : Bool) (left : Expr) (ts : List Lexem) : PR Expr ts :=
+def addLoop (bs : Bool) (left : Expr) (ts : List Lexem) : PR false Expr ts :=
   match ts with
   | .arith s :: r =>
     match ArithOp.ofStr? s with
     | some .Add | some .Subtract =>
       match parseMulDiv bs r with
-      | (.error e, r2) => (.error e, r2.lift (by simp))
-      | (.ok e, ⟨r2, h2⟩) =>
+      | ⟨.error e, r2, h2, _⟩ => ⟨.error e, r2, by lenomega, fun h => by simp at h⟩
+      | ⟨.ok e, r2, h2, _⟩ =>
         let op := if ArithOp.ofStr? s == some .Add then ArithOp.Add else ArithOp.Subtract
-        let (res, r3) := addLoop bs (.arith left op e) r2
-        (res, r3.lift (by simp; omega))
-    | _ => (.ok left, Rest.refl _)
-  | ts => (.ok left, Rest.refl ts)
+        match addLoop bs (.arith left op e) r2 with
+        | ⟨res, r3, h3, _⟩ => ⟨res, r3, by lenomega, fun h => by simp at h⟩
+    | _ => ⟨.ok left, _, Nat.le_refl _, fun h => by simp at h⟩
+  | ts => ⟨.ok left, ts, Nat.le_refl _, fun h => by simp at h⟩
 termination_by 16 * ts.length + 6
 
-def parseMulDiv (bs : Bool) (ts : List Lexem) : PR Expr ts :=
+def parseMulDiv (bs : Bool) (ts : List Lexem) : PR true Expr ts :=
   match parseParen bs ts with
-  | (.error e, r) => (.error e, r)
-  | (.ok left, ⟨r, hr⟩) =>
-    let (res, r2) := mulLoop bs left r
-    (res, r2.lift hr)
+  | ⟨.error e, r, hr, hp⟩ => ⟨.error e, r, hr, hp⟩
+  | ⟨.ok left, r, hr, hp⟩ =>
+    match mulLoop bs left r with
+    | ⟨res, r2, h2, _⟩ => ⟨res, r2, by omega, fun a b => by have := hp a b; omega⟩
 termination_by 16 * ts.length + 5
 
-def mulLoop (bs : Bool) (left : Expr) (ts : List Lexem) : PR Expr ts :=
+def mulLoop (bs : Bool) (left : Expr) (ts : List Lexem) : PR false Expr ts :=
   match ts with
   | .arith s :: r =>
     match ArithOp.ofStr? s with
     | some .Multiply | some .Divide | some .Modulo =>
       match parseParen bs r with
-      | (.error e, r2) => (.error e, r2.lift (by simp))
-      | (.ok e, ⟨r2, h2⟩) =>
+      | ⟨.error e, r2, h2, _⟩ => ⟨.error e, r2, by lenomega, fun h => by simp at h⟩
+      | ⟨.ok e, r2, h2, _⟩ =>
         let op := match ArithOp.ofStr? s with
           | some .Multiply => ArithOp.Multiply
           | some .Divide => ArithOp.Divide
           | _ => ArithOp.Modulo
-        let (res, r3) := mulLoop bs (.arith left op e) r2
-        (res, r3.lift (by simp; omega))
-    | _ => (.ok left, Rest.refl _)
-  | ts => (.ok left, Rest.refl ts)
+        match mulLoop bs (.arith left op e) r2 with
+        | ⟨res, r3, h3, _⟩ => ⟨res, r3, by lenomega, fun h => by simp at h⟩
+    | _ => ⟨.ok left, _, Nat.le_refl _, fun h => by simp at h⟩
+  | ts => ⟨.ok left, ts, Nat.le_refl _, fun h => by simp at h⟩
 termination_by 16 * ts.length + 4
 
-def parseParen (bs : Bool) (ts : List Lexem) : PR Expr ts :=
+def parseParen (bs : Bool) (ts : List Lexem) : PR true Expr ts :=
   match ts with
   | .open_ :: r =>
     match parseExpr bs r with
-    | (res, ⟨r2, h2⟩) =>
-      match r2 with
-      | .close :: r3 => (res, ⟨r3, by simp at h2 ⊢; omega⟩)
-      | [] => (.error (.msg "Unmatched parenthesis"), ⟨[], by simp⟩)
-      | _ :: r3 => (.error (.msg "Unmatched parenthesis"), ⟨r3, by simp at h2 ⊢; omega⟩)
+    | ⟨res, r2, h2, _⟩ =>
+      match r2, h2 with
+      | .close :: r3, h2 => ⟨res, r3, by lenomega, fun _ _ => by lenomega⟩
+      | [], _ => ⟨.error (.msg "Unmatched parenthesis"), [], by simp, fun _ _ => by simp⟩
+      | _ :: r3, h2 => ⟨.error (.msg "Unmatched parenthesis"), r3, by lenomega, fun _ _ => by lenomega⟩
   | .copen :: r =>
     match parseExpr bs r with
-    | (res, ⟨r2, h2⟩) =>
-      match r2 with
-      | .cclose :: r3 => (res, ⟨r3, by simp at h2 ⊢; omega⟩)
-      | [] => (.error (.msg "Unmatched parenthesis"), ⟨[], by simp⟩)
-      | _ :: r3 => (.error (.msg "Unmatched parenthesis"), ⟨r3, by simp at h2 ⊢; omega⟩)
+    | ⟨res, r2, h2, _⟩ =>
+      match r2, h2 with
+      | .cclose :: r3, h2 => ⟨res, r3, by lenomega, fun _ _ => by lenomega⟩
+      | [], _ => ⟨.error (.msg "Unmatched parenthesis"), [], by simp, fun _ _ => by simp⟩
+      | _ :: r3, h2 => ⟨.error (.msg "Unmatched parenthesis"), r3, by lenomega, fun _ _ => by lenomega⟩
   | ts => parseFuncScalar bs ts
 termination_by 16 * ts.length + 3
 
-def parseFuncScalar (bs : Bool) (ts : List Lexem) : PR Expr ts :=
+def parseFuncScalar (bs : Bool) (ts : List Lexem) : PR true Expr ts :=
   let errS : PErr := .msg "Error parsing expression, expecting string"
   match ts with
   | .arith s :: r =>
-    if s == ['-'] then
-      let (res, r2) := leafP bs true r
-      (res, r2.lift (by simp))
-    else if s == ['+'] then (.error errS, ⟨r, by simp⟩)     -- `+` is consumed, then the operator itself is matched
-    else (.error errS, Rest.refl _)                          -- other operators are un-read (`drop_lexem`)
+    if s == ['-'] then (leafP bs true r).lift (by simp)
+    else
+      -- `+` and (since the D25 fix) every other operator is consumed; the operator itself is then
+      -- matched against String/RawString and rejected
+      ⟨.error errS, r, by simp, fun _ _ => by simp⟩
   | ts' => leafP bs false ts'
 termination_by 16 * ts.length + 2
 
 /-- leaf after an optional sign: column, function call or literal -/
-def leafP (bs : Bool) (minus : Bool) (ts : List Lexem) : PR Expr ts :=
+def leafP (bs : Bool) (minus : Bool) (ts : List Lexem) : PR true Expr ts :=
   let errS : PErr := .msg "Error parsing expression, expecting string"
   match ts with
-  | [] => (.error errS, ⟨[], by simp⟩)
+  | [] => ⟨.error errS, [], by simp, fun _ h => absurd rfl h⟩
   | .str s :: r | .raw s :: r =>
     match Field.ofStr? s with
-    | some f => (.ok (.field minus f), ⟨r, by simp⟩)
+    | some f => ⟨.ok (.field minus f), r, by simp, fun _ _ => by simp⟩
     | none =>
       match Function.ofStr? s with
       | some fn =>
         match parseFunction bs fn r with
-        | (.error e, r2) => (.error e, r2.lift (by simp))
-        | (.ok e, r2) => (.ok (e.setMinus minus), r2.lift (by simp))
-      | none => (.ok (.val minus s), ⟨r, by simp⟩)
-  | _ :: r => (.error errS, ⟨r, by simp⟩)
+        | ⟨.error e, r2, h2, _⟩ => ⟨.error e, r2, by lenomega, fun _ _ => by lenomega⟩
+        | ⟨.ok e, r2, h2, _⟩ => ⟨.ok (e.setMinus minus), r2, by lenomega, fun _ _ => by lenomega⟩
+      | none => ⟨.ok (.val minus s), r, by simp, fun _ _ => by simp⟩
+  | _ :: r => ⟨.error errS, r, by simp, fun _ _ => by simp⟩
 termination_by 16 * ts.length + 1
 
-def parseFunction (bs : Bool) (fn : Function) (ts : List Lexem) : PR Expr ts :=
+def parseFunction (bs : Bool) (fn : Function) (ts : List Lexem) : PR false Expr ts :=
   match fnHeader fn ts with
-  | .ret res r => (res, r)
+  | .ret res r => ⟨res, r.1, r.2, fun h => by simp at h⟩
   | .args curly ⟨t1, h1⟩ =>
     match parseExpr bs t1 with
-    | (.error (.msg _), r) => (.ok (.func0 false fn), r.lift h1)     -- `if let Ok(Some(..)) … else return Ok(function_expr)`
-    | (.error e, r) => (.error e, r.lift h1)
-    | (.ok arg, ⟨t2, h2⟩) =>
+    | ⟨.error (.msg _), r, hr, _⟩ => ⟨.ok (.func0 false fn), r, by omega, fun h => by simp at h⟩   -- `if let Ok(Some(..)) … else return Ok(function_expr)`
+    | ⟨.error e, r, hr, _⟩ => ⟨.error e, r, by omega, fun h => by simp at h⟩
+    | ⟨.ok arg, t2, h2, _⟩ =>
       match argsLoop bs curly [] t2 with
-      | (.error e, r) => (.error e, r.lift (by omega))
-      | (.ok args, r) => (.ok (.func false fn arg args), r.lift (by omega))
+      | ⟨.error e, r, hr, _⟩ => ⟨.error e, r, by omega, fun h => by simp at h⟩
+      | ⟨.ok args, r, hr, _⟩ => ⟨.ok (.func false fn arg args), r, by omega, fun h => by simp at h⟩
 termination_by 16 * ts.length + 13
 
-def argsLoop (bs : Bool) (curly : Bool) (acc : List Expr) (ts : List Lexem) : PR (List Expr) ts :=
+def argsLoop (bs : Bool) (curly : Bool) (acc : List Expr) (ts : List Lexem) : PR false (List Expr) ts :=
   let errF : PErr := .msg "Error in function expression"
   match ts with
   | .comma :: r =>
     match parseExpr bs r with
-    | (.error (.msg _), r2) => (.error errF, r2.lift (by simp))
-    | (.error e, r2) => (.error e, r2.lift (by simp))
-    | (.ok e, ⟨r2, h2⟩) =>
-      let (res, r3) := argsLoop bs curly (acc ++ [e]) r2
-      (res, r3.lift (by simp; omega))
-  | .close :: r => if !curly then (.ok acc, ⟨r, by simp⟩) else (.error errF, ⟨r, by simp⟩)
-  | .cclose :: r => if curly then (.ok acc, ⟨r, by simp⟩) else (.error errF, ⟨r, by simp⟩)
-  | [] => (.error errF, ⟨[], by simp⟩)
-  | _ :: r => (.error errF, ⟨r, by simp⟩)
+    | ⟨.error (.msg _), r2, h2, _⟩ => ⟨.error errF, r2, by lenomega, fun h => by simp at h⟩
+    | ⟨.error e, r2, h2, _⟩ => ⟨.error e, r2, by lenomega, fun h => by simp at h⟩
+    | ⟨.ok e, r2, h2, _⟩ =>
+      match argsLoop bs curly (acc ++ [e]) r2 with
+      | ⟨res, r3, h3, _⟩ => ⟨res, r3, by lenomega, fun h => by simp at h⟩
+  | .close :: r => if !curly then ⟨.ok acc, r, by simp, fun h => by simp at h⟩ else ⟨.error errF, r, by simp, fun h => by simp at h⟩
+  | .cclose :: r => if curly then ⟨.ok acc, r, by simp, fun h => by simp at h⟩ else ⟨.error errF, r, by simp, fun h => by simp at h⟩
+  | [] => ⟨.error errF, [], by simp, fun h => by simp at h⟩
+  | _ :: r => ⟨.error errF, r, by simp, fun h => by simp at h⟩
 termination_by 16 * ts.length + 0
 
 end
